@@ -4,7 +4,7 @@ LEAN_MODULE = "Hw.Props.C07"
 NS = "Hw.Props.C07."
 THEOREMS = [NS + t for t in """C07_parse_index_safe C07_loops_write_safe C07_parse_no_loops_overflow C07_scan_reads_initialised
 C07_F04_memmove_bounds C07_widths_no_wrap C07_no_divzero C07_error_kinds C07_type_interleave_asserts_hold
-C07_nbs_wrap_abort_witness C07_F67_rejected C07_indexes_length_nodup C07_interleave_perm C07_loops_perm C07_parse_arrays_ok
+C07_xy_never_aborts C07_F69_ignored C07_F67_rejected C07_indexes_length_nodup C07_interleave_perm C07_loops_perm C07_parse_arrays_ok
 C07_explicit_list_as_written C07_parse_faithful C07_build_wf_bounded C07_dump_structure C07_export_contract C07_export_contract_zero
 C07_export_rejects_unknown_flags C07_126_levels_accepted C07_deeper_level_interleave_ignored C07_trailing_colon_ignored
 C07_overlapping_strides_rejected C07_interleave_by_pu""".split()]
@@ -18,8 +18,6 @@ TRUSTED = ["libc strtoul/strtoull/strtol are modelled (Hw.Base.Num.strtoul for u
            "export: the nested cursors of hwloc__export_synthetic_* are modelled as one flat chunk list (agreement of every buffer cell is "
            "checked differentially for all buffer lengths)"]
 ASSUMPTIONS = ["allocations above 64 MB fail (ASAN_OPTIONS max_allocation_size_mb=64), mirrored by Hw.Syn.allocLimit",
-               "excluded input class (the real code still aborts, reported): x*y interleavings whose product of counts is 0 modulo 2^64 "
-               "fail assert(nbs) (C07_nbs_wrap_abort_witness; switch VERIF_INCLUDE_SYN_NBS=1 to include)",
                "build comparison only for `Regular` descriptions (buildTopo = some): no Group/Die in a run of arity-1 levels, runs in the core's "
                "type order, ascending NUMA indexes per parent; every loaded topology (regular or not) goes through the WF oracle",
                "I-cache and MemCache type filters are set to KEEP_ALL before loading (so that every level and memory-side cache written in "
